@@ -69,7 +69,7 @@ def registration_cases():
 def check_values(case):
     """clock steps with moving prices; every index query (now, explicit past time incl. 0) equals the share-weighted average at that time"""
     rng = random.Random(case["seed"])
-    shares = tuple(rng.randint(1, 50) for _ in range(3))
+    shares = tuple(case["shares"]) if case.get("shares") else tuple(rng.randint(1, 50) for _ in range(3))
     sim, ms, idx = _world(shares=shares)
     idx.setup({"tickSize": 0.01, "marketPrice": 100.0, "markets": ["ABC"[i] for i in case["comps"]]})
     sim._add_market(idx)
@@ -118,6 +118,10 @@ def value_cases(tier):
     for seed in range(n):
         for comps in ([0, 1], [2, 0, 1], [1]):
             yield {"kind": "values", "seed": seed, "comps": comps, "steps": 3}
+    # share patterns with arithmetic coincidences (first = mean of all, all equal, one dominating)
+    for seed, shares in enumerate(([200, 100, 300], [100, 200, 300], [7, 7, 7], [300, 100, 200], [1, 1, 1000], [2, 1, 3])):
+        for comps in ([0, 1, 2], [1, 2, 0], [2, 0, 1]):
+            yield {"kind": "values", "seed": 1000 + seed, "comps": comps, "steps": 3, "shares": shares}
 
 
 def _check(case):
